@@ -27,7 +27,7 @@ var mediaTypes = []string{
 	"image/png",
 }
 
-var metaKeys = []string{"k", "io.wabbit-networks.buildId", "releasedBy", "a b", "key\"quoted\"", "<html>&", "ключ", "x/y", "emoji\U0001F600", "line sep", "", "io.cncf.notar", "Io.cncf.notary.upper"}
+var metaKeys = []string{"k", "a=b", " lead", "dots.in.key", "io.wabbit-networks.buildId", "releasedBy", "a b", "key\"quoted\"", "<html>&", "ключ", "x/y", "emoji\U0001F600", "line sep", "", "io.cncf.notar", "Io.cncf.notary.upper"}
 var metaVals = []string{"", "v", "123", "Mo says \"hi\"", "<b>&amp;</b>", "значение", "tab\there", "new\nline", "  ", "a\\b", "\U0001F680 launch", "\x7f", "0123456789012345678901234567890123456789"}
 
 func (g *generator) metaMap(n int, avoid map[string]string) map[string]string {
@@ -401,6 +401,128 @@ func (g *generator) all(run func(*c07Case)) {
 				c.Desc = Pick(g.rng, []string{"rsa-2048", "ec-256", "Ec-384"})
 			}
 			run(c)
+		}
+	}
+	// F9: verification with options LESS specific than what was signed (no content media type,
+	// no / part of the metadata): what comes back must still be what was SIGNED
+	for i := 0; i < n(1, 12); i++ {
+		for _, kind := range []string{"blob", "oci"} {
+			for _, vm := range []string{"nil", "one", "all", "empty-map"} {
+				for _, vmtEmpty := range []bool{true, false} {
+					if kind == "oci" && !vmtEmpty {
+						continue
+					}
+					c := g.base("less-specific", pickKey(), Pick(g.rng, formats), kind, Pick(g.rng, signerKinds))
+					c.Meta = map[string]string{"releasedBy": "me", "buildId": fmt.Sprint(g.rng.Intn(1000)), "empty": ""}
+					c.VMeta = nil
+					switch vm {
+					case "one":
+						c.VMeta = map[string]string{Pick(g.rng, []string{"releasedBy", "empty"}): ""}
+						for k := range c.VMeta {
+							c.VMeta[k] = c.Meta[k]
+						}
+					case "all":
+						c.VMeta = map[string]string{}
+						for k, v := range c.Meta {
+							c.VMeta[k] = v
+						}
+					case "empty-map":
+						c.VMetaEmpty = true
+					}
+					if kind == "blob" {
+						c.Blob.MT = Pick(g.rng, []string{"text/plain; charset=utf-8", "application/vnd.example.thing+json; version=2"})
+						vb := *c.Blob
+						c.VBlob = &vb
+						if vmtEmpty {
+							c.VBlob.MT = ""
+						}
+					} else {
+						if c.OCI.Anns == nil {
+							c.OCI.Anns = map[string]string{}
+						}
+						delete(c.OCI.Anns, "empty")
+						c.OCI.Anns["org.opencontainers.image.title"] = "app"
+						c.VOCI = cloneDesc(c.OCI)
+					}
+					run(c)
+				}
+			}
+		}
+	}
+	// F10: empty vs absent vs nil maps and values
+	for i := 0; i < n(1, 10); i++ {
+		for _, kind := range []string{"blob", "oci"} {
+			for _, v := range []string{"meta-empty-map", "anns-empty-map", "both-empty-maps", "empty-value", "empty-key", "vmeta-empty-value"} {
+				c := g.base("empty-"+v, pickKey(), Pick(g.rng, formats), kind, Pick(g.rng, signerKinds))
+				c.VMeta = nil
+				switch v {
+				case "meta-empty-map":
+					c.Meta, c.MetaEmpty = nil, true
+				case "anns-empty-map":
+					if kind == "oci" {
+						c.OCI.Anns, c.OCI.EmptyAnn = nil, true
+						c.VOCI = cloneDesc(c.OCI)
+					}
+				case "both-empty-maps":
+					c.Meta, c.MetaEmpty = nil, true
+					if kind == "oci" {
+						c.OCI.Anns, c.OCI.EmptyAnn = nil, true
+						c.VOCI = cloneDesc(c.OCI)
+					}
+				case "empty-value":
+					c.Meta = map[string]string{"k": ""}
+				case "empty-key":
+					c.Meta = map[string]string{"": "v"}
+					c.VMeta = map[string]string{"": "v"}
+				case "vmeta-empty-value":
+					// demanded: key present with the empty value; signed: key absent
+					c.Meta = map[string]string{"other": "x"}
+					c.VMeta = map[string]string{"k": ""}
+				}
+				run(c)
+			}
+		}
+	}
+	// F11: history — ONE signer instance signs three different things in sequence (an illegal
+	// request in the middle); every step is judged on its own input
+	for i := 0; i < n(1, 10); i++ {
+		for si, s := range signerKinds {
+			grp := fmt.Sprintf("h%d-%d", i, si)
+			key, f := pickKey(), Pick(g.rng, formats)
+			kinds := []string{"oci", "blob", "oci", "blob"}
+			if g.rng.Bool() {
+				kinds = []string{"blob", "oci", "blob", "oci"}
+			}
+			for step, kind := range kinds {
+				c := g.base("history", key, f, kind, s)
+				c.Group = grp
+				c.Meta = map[string]string{fmt.Sprintf("step%d", step): fmt.Sprint(g.rng.Intn(100)), "common": fmt.Sprint("v", step)}
+				c.VMeta = nil
+				if step == 1 {
+					c.Meta["io.cncf.notary.x"] = "reserved" // this step must fail, the next must not be affected
+				}
+				if step == 3 {
+					c.Meta = nil
+				}
+				run(c)
+			}
+		}
+	}
+	// F12: the repository lists other signatures next to the genuine one (before / after / both
+	// sides): the outcome is the genuine signature's
+	for i := 0; i < n(1, 10); i++ {
+		for _, pos := range []string{"before", "after", "both"} {
+			for _, ds := range [][]string{{"other-desc"}, {"untrusted"}, {"other-desc", "untrusted"}, {"untrusted", "other-desc", "other-desc"}} {
+				c := g.base("decoys", pickKey(), Pick(g.rng, formats), "oci", Pick(g.rng, signerKinds))
+				c.Meta = map[string]string{"releasedBy": "me", "n": fmt.Sprint(g.rng.Intn(100))}
+				c.Decoys, c.DecoyPos = ds, pos
+				if g.rng.Bool() {
+					c.VMeta = map[string]string{"releasedBy": "me"}
+				} else {
+					c.VMeta = nil
+				}
+				run(c)
+			}
 		}
 	}
 	// F8: descriptor sizes at and beyond the float64 integer range (the JWS envelope of
